@@ -48,10 +48,22 @@ def tap():
         return out
 
     np.random.randn, np.random.normal, np.random.standard_normal = randn, normal, standard_normal
+    # a library module may have bound the entry points by name (`from numpy.random import normal`): interpose there as well
+    import sys
+    swapped = []
+    for mname, mod in list(sys.modules.items()):
+        if mod is None or not mname.startswith("opticomlib"):
+            continue
+        for attr, val in list(vars(mod).items()):
+            if callable(val) and getattr(val, "__self__", None) is getattr(o_normal, "__self__", object()) and getattr(val, "__name__", "") in ("randn", "normal", "standard_normal"):
+                swapped.append((mod, attr, val))
+                setattr(mod, attr, {"randn": randn, "normal": normal, "standard_normal": standard_normal}[val.__name__])
     try:
         yield t
     finally:
         np.random.randn, np.random.normal, np.random.standard_normal = o_randn, o_normal, o_std
+        for mod, attr, val in swapped:
+            setattr(mod, attr, val)
 
 
 def explain(component, rows):
